@@ -56,7 +56,10 @@ func getWalkerFn(root string) walkerFn {
 				// the group takes its place
 				if first, ok := relinked[stat.Linkname]; ok {
 					stat.Linkname = first
-				} else if underReplacedDir(root, stat.Linkname) {
+				} else if underReplacedDir(root, stat.Linkname) && !underReplacedDir(root, path) {
+					// (path itself may be such a name: the former directory
+					// was listed through the link and holds several names
+					// of the inode)
 					relinked[stat.Linkname] = path
 					stat.Linkname = ""
 				}
